@@ -274,10 +274,62 @@ pub fn input_vectors(p: &Program, f: &Function, small: bool, max_params: usize, 
                 cross(&doms, |v| out.push(v.iter().flatten().cloned().collect()));
             }
             out.truncate(max_vectors);
+            for v in result_directed(p, &user) {
+                if !out.iter().any(|o| args_str(o) == args_str(&v)) {
+                    out.push(v);
+                }
+            }
             return Some(out);
         }
         small = true;
     }
+}
+
+/// For two parameters of the same integer type: pairs whose quotient / remainder / sum / difference / product
+/// sits on a boundary (a cross product of per-operand boundaries rarely produces one). At most 16 pairs.
+fn result_directed(p: &Program, user: &[&cairo_lang_sierra::ids::ConcreteTypeId]) -> Vec<Vec<Arg>> {
+    use num_bigint::BigInt;
+    let [ta, tb] = user else { return vec![] };
+    if ta != tb {
+        return vec![];
+    }
+    let Some(d) = p.type_declarations.iter().find(|d| d.id == **ta) else { return vec![] };
+    let (bits, signed) = match d.long_id.generic_id.0.as_str() {
+        "u8" => (8u32, false),
+        "u16" => (16, false),
+        "u32" => (32, false),
+        "u64" => (64, false),
+        "u128" => (128, false),
+        "i8" => (8, true),
+        "i16" => (16, true),
+        "i32" => (32, true),
+        "i64" => (64, true),
+        "i128" => (128, true),
+        _ => return vec![],
+    };
+    let one = BigInt::from(1);
+    let (min, max): (BigInt, BigInt) = if signed { (-(&one << (bits - 1)), (&one << (bits - 1)) - &one) } else { (BigInt::from(0), (&one << bits) - &one) };
+    let half = &one << (bits / 2);
+    let mut bs = vec![one.clone(), BigInt::from(2), BigInt::from(3), half.clone(), max.clone()];
+    if signed {
+        bs.extend([BigInt::from(-1), BigInt::from(-2), min.clone()]);
+    }
+    let mut out: Vec<(BigInt, BigInt)> = vec![];
+    for b in &bs {
+        for q in [one.clone(), &half - 1, &max / b] {
+            for r in [BigInt::from(0), BigInt::from(b.magnitude().clone()) - 1] {
+                out.push((&q * b + &r, b.clone()));
+            }
+        }
+        out.extend([(&max - b, b.clone()), (&max - b + 1, b.clone()), (&min - b, b.clone()), (&min - b - 1, b.clone()), (b.clone(), b.clone()), (b - 1, b.clone()), (b + 1, b.clone())]);
+    }
+    out.retain(|(a, b)| *a >= min && *a <= max && *b >= min && *b <= max);
+    out.sort();
+    out.dedup();
+    // spread the cap over the divisors
+    let n = out.len();
+    let step = n.div_ceil(16).max(1);
+    out.into_iter().step_by(step).take(16).map(|(a, b)| vec![Arg::Value(Felt::from(&a)), Arg::Value(Felt::from(&b))]).collect()
 }
 
 pub fn args_str(v: &[Arg]) -> Vec<String> {
